@@ -18,6 +18,7 @@ from tools.lib.framework import impl_call
 CLAIMED = True
 CONFIG = {'assumptions': ['attribute strings are compared as UTF-8 bytes; generated strings are valid UTF-8',
                           'the ELF container around the section is assembled by the harness (ELF32/ELF64, both byte orders)',
+                          'sh_flags of the generated sections never carries SHF_COMPRESSED (compressed sections: property C02)',
                           'mnemonic notation is that of llvm-readobj ARMEHABIPrinter, the reference named in ehabi/decoder.py',
                           'register-range masks are 32 bits wide as in the reference printer',
                           'eh_table_offset is left open for table-based Su16 and generic entries (docstring is ambiguous there)']}
@@ -44,7 +45,10 @@ RULE = ('cases: attribute sections of 1..6 vendor subsections x 0..5 file/sectio
         '(out of domain, model vs impl only); prel31 over all sign/size classes incl. bit26!=bit30; index images with every '
         'entry kind, tables before and after the index; the section header table drawn before or after the section '
         'bodies, trailing filler of 0..n bytes, so that every table form (and the index, and the attributes section) '
-        'also occurs with its last word being the last word of the file; byte-code: every first byte x every operand byte, random instruction '
+        'also occurs with its last word being the last word of the file; every section header field that does not '
+        'locate the bytes is drawn (sh_flags without SHF_COMPRESSED, sh_addr, sh_link, sh_info, sh_addralign, sh_entsize '
+        '-- for .ARM.exidx 0, 8, 4, 16, 1, 12, 2^31, maximum, random), an .ARM.extab section header with drawn fields '
+        'present or absent; the models take the decoded header; byte-code: every first byte x every operand byte, random instruction '
         'lists with multi-byte uleb128 operands, raw byte strings. Histories: on sections of 1..4 subsections, call '
         'sequences of 3..16 operations over the section object and every object it hands out (start a walk with or '
         'without vendor/scope/tag limit, next, close, drop, num_*, list property, complete fresh walk, unrelated seek), '
@@ -73,9 +77,29 @@ def filler(n, salt):
 SH_FIRST_BASE = 300     # with the section header table first, section bodies start at or after this offset
 
 
+DEFAULT_SHF = [0, 0, 0, 0, 1, 0]        # sh_flags sh_addr sh_link sh_info sh_addralign sh_entsize
+
+
+def rand_shf(rng, cls, entsizes):
+    """the section header fields that do not locate the bytes, all drawn (sh_flags never with SHF_COMPRESSED,
+    which turns the section into a compressed one: property C02)"""
+    n = 32 if cls == 32 else 64
+
+    def word(bits, *typical):
+        r = rng.random()
+        if r < 0.5:
+            return rng.choice(typical)
+        if r < 0.65:
+            return 2 ** bits - 1
+        return rng.getrandbits(bits)
+    return [word(n, 0, 2, 0x82, 6) & ~0x800, word(n, 0, 0x8000, 0x10000), word(32, 0, 1, 2, 3), word(32, 0, 1, 2),
+            word(n, 0, 1, 4, 8, 3), word(n, *entsizes)]
+
+
 def build_elf(le, cls, machine, secs, total):
-    """secs: list of (name, sh_type, offset, size).  Returns a bytearray filled with non-zero garbage, the ELF
-    header at 0; section contents are patched in by the caller.
+    """secs: list of (name, sh_type, offset, size[, shf]).  Returns (img, hdrs): a bytearray filled with non-zero
+    garbage, the ELF header at 0, and for each section the ten Elf_Shdr fields as written; section contents are
+    patched in by the caller.
     total = n            : the image has n bytes of header + bodies + filler, then .shstrtab and the section header
                            table are APPENDED (as linkers do: something always follows the last section body);
     total = ['shfirst', n]: .shstrtab and the section header table come right after the ELF header, the bodies
@@ -88,7 +112,8 @@ def build_elf(le, cls, machine, secs, total):
     img = bytearray(filler(max(total, ehsize), len(secs) + cls))
     names = b'\0'
     name_off = []
-    for name, _, _, _ in secs:
+    secs = [tuple(x) + (DEFAULT_SHF,) if len(x) == 4 else tuple(x) for x in secs]
+    for name, _, _, _, _ in secs:
         name_off.append(len(names))
         names += name.encode() + b'\0'
     shstr_name = len(names)
@@ -98,7 +123,7 @@ def build_elf(le, cls, machine, secs, total):
         shstr_off = ehsize
         shoff = ehsize + len(names) + 3
         end = shoff + nsecs * shentsize
-        assert end <= SH_FIRST_BASE and all(off >= end for _, _, off, _ in secs) and len(img) >= end
+        assert end <= SH_FIRST_BASE and all(x[2] >= end for x in secs) and len(img) >= end
         img[shstr_off:shstr_off + len(names)] = names
         table = bytearray()
     else:
@@ -107,13 +132,10 @@ def build_elf(le, cls, machine, secs, total):
         img += filler(3, 7)
         shoff = len(img)
         table = img
-    allsecs = [(0, 0, 0, 0)] + [(no, t, off, sz) for no, (_, t, off, sz) in zip(name_off, secs)] + \
-              [(shstr_name, 3, shstr_off, len(names))]
-    for no, t, off, sz in allsecs:
-        if cls == 32:
-            table += struct.pack(e + '10I', no, t, 0, 0, off, sz, 0, 0, 1, 0)
-        else:
-            table += struct.pack(e + 'IIQQQQIIQQ', no, t, 0, 0, off, sz, 0, 0, 1, 0)
+    hdrs = [[no, t, f[0], f[1], off, sz, f[2], f[3], f[4], f[5]] for no, (_, t, off, sz, f) in zip(name_off, secs)]
+    allsecs = [[0] * 10] + hdrs + [[shstr_name, 3, 0, 0, shstr_off, len(names), 0, 0, 1, 0]]
+    for h in allsecs:
+        table += struct.pack(e + ('10I' if cls == 32 else 'IIQQQQIIQQ'), *h)
     if sh_first:
         img[shoff:shoff + len(table)] = table
     ident = b'\x7fELF' + bytes([1 if cls == 32 else 2, 1 if le else 2, 1, 0]) + b'\0' * 8
@@ -124,7 +146,20 @@ def build_elf(le, cls, machine, secs, total):
         hdr = ident + struct.pack(e + 'HHIQQQIHHHHHH', 2, machine, 1, 0, 0, shoff, 0, ehsize, 56, 0, shentsize,
                                   len(allsecs), len(allsecs) - 1)
     img[:len(hdr)] = hdr
-    return img
+    return img, hdrs
+
+
+def placement_of(x):
+    """(build_elf's total, shf of the main section, extab section or None) of a placement descriptor:
+    n | ['shfirst', n] | ['after' / 'shfirst', n, shf, extab]"""
+    if not isinstance(x, list):
+        return x, DEFAULT_SHF, None
+    total = ['shfirst', x[1]] if x[0] == 'shfirst' else x[1]
+    return total, (x[2] if len(x) > 2 else DEFAULT_SHF), (x[3] if len(x) > 3 else None)
+
+
+EXIDX_ENTSIZES = [0, 8, 4, 16, 1, 12, 2 ** 31]
+ATTR_ENTSIZES = [0, 1, 4, 8, 5]
 
 
 def rand_placement(rng):
@@ -330,7 +365,14 @@ def rand_eh_image(rng, kinds, placement=None):
         ents[i][0][2] = pos
         pos += ents[i][1] + (0 if placement == 'eof' and k == len(after) - 1 else rng.choice([0, 4]))
     total = pos + (0 if placement == 'eof' else rng.randint(0, 12))
-    return [le, exidx_off, [a for a, _ in ents], total if placement == 'after' else ['shfirst', total]]
+    # a section header for .ARM.extab when the tables form one run behind the index (as linkers lay them out);
+    # nothing reads it, whatever it says
+    extab = None
+    if after and not before and rng.random() < 0.6:
+        start = min(ents[i][0][2] for i in after)
+        extab = [start, max(ents[i][0][2] + ents[i][1] for i in after) - start, rand_shf(rng, 32, [0, 4, 8])]
+    return [le, exidx_off, [a for a, _ in ents],
+            ['after' if placement == 'after' else 'shfirst', total, rand_shf(rng, 32, EXIDX_ENTSIZES), extab]]
 
 
 # ------------------------------------------------------------------ histories
@@ -553,8 +595,9 @@ def gen(ctx):
         fl = rng.choice(['arm', 'arm', 'riscv'])
         sec = rand_section(rng, fl, rng.choice([1, 2, 2, 3, 3, 4]), [0, 1, 2, 2, 3], [0, 1, 2, 3, 5])
         hist = rand_attr_hist(rng, fl, sec, rng.choice([3, 4, 6, 8, 12, 16]))
-        cases.append(('attr_hist', [fl, rng.random() < 0.5, rng.choice([32, 32, 64]), rng.choice([0, 1, 3, 16]),
-                                    rand_post(rng, [0, 1, 5]), sec, hist]))
+        cls = rng.choice([32, 32, 64])
+        cases.append(('attr_hist', [fl, rng.random() < 0.5, cls, rng.choice([0, 1, 3, 16]),
+                                    rand_post(rng, [0, 1, 5], cls), sec, hist]))
     # ---------------- histories on one EHABIInfo object, its entries and decoder objects
     for _ in range(150 * T):
         kinds = [rng.choice(EH_KINDS + ['inline', 't0', 't12', 't12']) for _ in range(rng.randint(1, 6))]
@@ -574,7 +617,7 @@ def gen(ctx):
         le = rng.random() < 0.5
         cls = rng.choice([32, 32, 64])
         pre = rng.choice([0, 1, 3, 7, 16, 100])
-        post = rand_post(rng, [0, 1, 5, 32])
+        post = rand_post(rng, [0, 1, 5, 32], cls)
         for mode in ('eager', 'nested'):
             cases.append(('attr', [fl, le, cls, pre, post, mode, sec]))
     # malformed stream: one byte of a valid section replaced / section size changed (out of domain)
@@ -848,25 +891,37 @@ def norm_err(r):
 
 
 def attr_image(a, body):
-    """pre: filler between the headers and the section; post: n = n bytes of filler after the section, then the
-    section header table; ['shfirst', n] = section header table first, n bytes after the section, then EOF"""
+    """pre: filler between the headers and the section; post: placement descriptor (see placement_of) whose n is
+    the number of filler bytes after the section"""
     fl, le, cls, pre, post = a[0], a[1], a[2], a[3], a[4]
     ehsize = 52 if cls == 32 else 64
     name, machine = ('.ARM.attributes', 40) if fl == 'arm' else ('.riscv.attributes', 243)
-    if isinstance(post, list):
+    tail, shf, _ = placement_of(post)
+    if isinstance(tail, list):
         off = SH_FIRST_BASE + pre
-        total = ['shfirst', off + len(body) + post[1]]
+        total = ['shfirst', off + len(body) + tail[1]]
     else:
         off = ehsize + pre
-        total = off + len(body) + post
-    img = build_elf(le, cls, machine, [(name, 0x70000003, off, len(body))], total)
+        total = off + len(body) + tail
+    img, hdrs = build_elf(le, cls, machine, [(name, 0x70000003, off, len(body), shf)], total)
     img[off:off + len(body)] = body
-    return img, name, off
+    return img, name, off, hdrs[0]
 
 
-def rand_post(rng, choices):
+def eh_image(le, exidx_off, size, placement):
+    """ELF32 ARM image with the .ARM.exidx header (and, if the placement has one, an .ARM.extab header);
+    returns (img, the ten fields of the .ARM.exidx header)"""
+    total, shf, extab = placement_of(placement)
+    secs = [('.ARM.exidx', 0x70000001, exidx_off, size, shf)]
+    if extab:
+        secs.append(('.ARM.extab', 1, extab[0], extab[1], extab[2]))
+    img, hdrs = build_elf(le, 32, 40, secs, total)
+    return img, hdrs[0]
+
+
+def rand_post(rng, choices, cls):
     p = rand_placement(rng)
-    return ['shfirst', 0] if p == 'eof' else ['shfirst', rng.choice(choices)] if p == 'first' else rng.choice(choices)
+    return ['after' if p == 'after' else 'shfirst', 0 if p == 'eof' else rng.choice(choices), rand_shf(rng, cls, ATTR_ENTSIZES)]
 
 
 def attr_shape(sec):
@@ -926,32 +981,38 @@ def evaluate(ctx, cases):
                 body[pos] = a[8]
                 sh_size = max(0, len(body) + a[9])
                 wf = 0
-            img, name, off = attr_image(a, bytes(body))
+            img, name, off, hdr = attr_image(a, bytes(body))
             if kind == 'attr_mut' and sh_size != len(body):
                 # patch sh_size in the section header (index 1): find it from e_shoff
                 e = '<' if a[1] else '>'
                 shoff = struct.unpack_from(e + 'I', img, 32)[0]
                 struct.pack_into(e + 'I', img, shoff + 40 + 20, sh_size)
             w = dict(img=img, name=name, wf=bool(wf), exp=exp, mode=a[5], shape=attr_shape(a[6]))
-            ctx.bump('attr_section_end', 'eof' if off + len(body) == len(img) else 'sh-table-first' if isinstance(a[4], list) else 'sh-table-after')
-            reqs2.append(['attr_model', a[0], a[1], bytes(img), off, sh_size])
+            sh_first = isinstance(placement_of(a[4])[0], list)
+            ctx.bump('attr_section_end', 'eof' if off + len(body) == len(img) else 'sh-table-first' if sh_first else 'sh-table-after')
+            ctx.bump('attr_sh_entsize', hdr[9] if hdr[9] < 32 else 'large')
+            if kind == 'attr':
+                reqs2.append(['attr_model_sec', a[0], a[1], bytes(img), hdr])
+            else:
+                reqs2.append(['attr_model', a[0], a[1], bytes(img), off, sh_size])
         elif kind == 'attr_hist':
             body, wf, exp = next(ans), next(ans), next(ans)
-            img, name, off = attr_image(a, bytes(body))
+            img, name, off, hdr = attr_image(a, bytes(body))
             w = dict(img=img, name=name, wf=bool(wf), exp=exp, shape=attr_shape(a[5]))
-            reqs2.append(['attr_hist_model', a[0], a[1], bytes(img), off, len(body), a[6]])
+            reqs2.append(['attr_hist_model_sec', a[0], a[1], bytes(img), hdr, a[6]])
         elif kind == 'eh_hist':
             le, exidx_off, ents, total, hist = a
             per = [(next(ans), next(ans), next(ans)) for _ in ents]
             exp = next(ans)
             size = 8 * len(ents)
-            img = build_elf(le, 32, 40, [('.ARM.exidx', 0x70000001, exidx_off, size)], total)
+            img, hdr = eh_image(le, exidx_off, size, total)
             for i, ((idx, tbl, tab), _, _) in enumerate(per):
                 img[exidx_off + 8 * i: exidx_off + 8 * i + 8] = idx
                 if tab:
                     img[tbl:tbl + len(tab)] = tab
             w = dict(img=img, wf=all(bool(x[1]) for x in per), exp=exp, tblspec=[bool(x[2][1]) for x in per])
-            reqs2.append(['eh_hist_model', bytes(img), le, exidx_off, size, hist])
+            ctx.bump('eh_sh_entsize', hdr[9] if hdr[9] < 32 else 'large')
+            reqs2.append(['eh_hist_model_sec', bytes(img), le, hdr, hist])
         elif kind == 'eh':
             le, exidx_off, ents, total, n = a
             encs = [next(ans) for _ in ents]
@@ -960,7 +1021,7 @@ def evaluate(ctx, cases):
             else:
                 wf, exp, tblspec = 0, None, 1
             size = 8 * len(ents)
-            img = build_elf(le, 32, 40, [('.ARM.exidx', 0x70000001, exidx_off, size)], total)
+            img, hdr = eh_image(le, exidx_off, size, total)
             words = []
             for i, (idx, tbl, tab) in enumerate(encs):
                 img[exidx_off + 8 * i: exidx_off + 8 * i + 8] = idx
@@ -968,12 +1029,14 @@ def evaluate(ctx, cases):
                     img[tbl:tbl + len(tab)] = tab
                 words.append(struct.unpack_from(('<' if le else '>') + 'II', bytes(idx)))
             w = dict(img=img, wf=bool(wf), exp=exp, tblspec=bool(tblspec), words=words, n=n, ent=ents[n] if n < len(ents) else None)
-            ctx.bump('eh_sh_table', 'first' if isinstance(total, list) else 'after-bodies')
+            ctx.bump('eh_sh_table', 'first' if isinstance(placement_of(total)[0], list) else 'after-bodies')
+            ctx.bump('eh_sh_entsize', hdr[9] if hdr[9] < 32 else 'large')
+            ctx.bump('eh_extab_section', 'present' if placement_of(total)[2] else 'absent')
             if n < len(ents) and encs[n][2] and encs[n][1] + len(encs[n][2]) == len(img):
                 ctx.bump('eh_table_last_word_at_eof', ents[n][0] + ('/%d-extra-words' % len(ents[n][6]) if ents[n][0] == 't12' else ''))
             elif n < len(ents) and not encs[n][2] and exidx_off + size == len(img):
                 ctx.bump('eh_index_last_word_at_eof', ents[n][0])
-            reqs2.append(['eh_model', bytes(img), le, exidx_off, size, n])
+            reqs2.append(['eh_model_sec', bytes(img), le, hdr, n])
         elif kind == 'bc':
             enc, wf, exp = next(ans), next(ans), next(ans)
             w = dict(data=enc, wf=bool(wf), exp=exp)
